@@ -42,6 +42,10 @@ class DockProp:
                 out = "OSeries %s" % (mgen.series_coq(run) or "[]")
             opts = clist("(%s,(%s,%s))" % (cbytes(b64d(k)), cbytes(v["since"].encode()), cbytes(v["until"].encode())) for k, v in sorted((run.get("opts") or {}).items()))
             counts = clist("(%s,(%d,%d))" % (cbytes(b64d(k)), v[0], v[1]) for k, v in sorted((run.get("per_container") or {}).items()))
+            if run.get("inflight_at_return"):
+                # per-container requests still running when the evaluation returned: not joined (reported as readers that were never closed)
+                counts = clist(["(%s,(%d,0))" % (cbytes(b"<requests not joined at return>"), run["inflight_at_return"])] +
+                               ["(%s,(%d,%d))" % (cbytes(b64d(k)), v[0], v[1]) for k, v in sorted((run.get("per_container") or {}).items())])
             exp_opts = clist("(%s,(%s,%s))" % (cbytes(k.encode()), cbytes(v[0].encode()), cbytes(v[1].encode())) for k, v in sorted(e["exp_opts"].items()))
             evs.append("mkdev (%s) %s %s %s %s %s %s %s (mkdobs (%s) %s %s)" % (
                 e["qcoq"], cZ(e["start"]), cZ(e["end"]), cZ(e["step"]), clist(cbytes(x.encode()) for x in e["exp_selected"]), exp_opts,
